@@ -76,4 +76,11 @@ CATALOGUE = [
     ("C20", "bibtexparser/middlewares/middleware.py", "                blocks.extend(transformed)", "                blocks.append(transformed)", 4000),
     ("C20", "bibtexparser/entrypoint.py", "    append_middleware = list(append_middleware)\n", "", 6000),
     ("C20", "bibtexparser/entrypoint.py", '        with open(file, "w") as f:\n            f.write(bibtex_str)', '        f = open(file, "w")\n        f.write(bibtex_str)', 4000),
+    # ---- state kept between calls (needs a *session* replay: earlier run(s) of the same process, then the failing run)
+    ("C18", "bibtexparser/middlewares/latex_encoding.py", '            return self._encoder.unicode_to_latex(python_string), ""\n',
+     '            memo = logger.__dict__.setdefault("_memo", {})\n            if python_string not in memo:\n                memo[python_string] = self._encoder.unicode_to_latex(python_string)\n            return memo[python_string], ""\n', 6000),
+    ("C07", "bibtexparser/entrypoint.py",
+     "        unparse_stack = default_unparse_stack(allow_inplace_modification=False)\n\n    if prepend_middleware is None:\n",
+     "        unparse_stack = globals().setdefault('_cached', default_unparse_stack(allow_inplace_modification=False))\n"
+     "        if prepend_middleware is not None:\n            unparse_stack[:0] = list(prepend_middleware)\n        return unparse_stack\n\n    if prepend_middleware is None:\n", 4000),
 ]
